@@ -16,6 +16,9 @@ PY = os.environ.get("VERIF_PYTHON", "/venv/bin/python")
 NPROC = int(os.environ.get("VERIF_NPROC", "16"))
 
 
+AUXILIARY_FLOORS = ("mon.table_cells", "mon.sets", "mon.insitu")
+
+
 def repo_dir():
     return os.environ.get("VERIF_REPO", "/repo")
 
@@ -229,7 +232,12 @@ def main(argv=None):
         floors = meta.get("floors", {}).get(tier, {})
         for name, floor in floors.items():
             if counters.get(name, 0) < floor:
-                inconcl.append(f"monitor counter {name}={counters.get(name, 0)} below floor {floor}")
+                if name.startswith(AUXILIARY_FLOORS):
+                    # L1/L2 monitors hang on private names / import styles of the code under test: when a refactoring
+                    # removes the attachment point they fall silent, the verdict then rests on the boundary monitors (L0)
+                    notes.append(f"auxiliary monitor {name}={counters.get(name, 0)} below its floor {floor}: attachment point not reached; verdict rests on the boundary monitors")
+                else:
+                    inconcl.append(f"monitor counter {name}={counters.get(name, 0)} below floor {floor}")
         if len(sigs) < 2:
             inconcl.append(f"only {len(sigs)} distinct non-trivial cases observed")
         if reach and unreached and not meta.get("reach_optional"):
